@@ -21,10 +21,11 @@ class Strange(Exception):
 @expose
 class Target:
     mode = "serialisable"
+    exc_class = ValueError
 
     def _boom(self):
         if Target.mode == "serialisable":
-            e = ValueError("bad", 7)
+            e = Target.exc_class("bad", 7)
             e.extra = "x"
             raise e
         if Target.mode == "unserialisable-attribute":
@@ -65,6 +66,7 @@ class StreamOf:
 
 
 KINDS = ["call", "attribute", "batch", "stream"]
+EXC_CLASSES = [ValueError, AttributeError, KeyError, LookupError, TypeError]
 MODES = ["serialisable", "unserialisable-attribute", "unserialisable-arg"]
 
 
@@ -72,6 +74,9 @@ def h_error_path(S, B):
     rig.reset(S)
     config.ITER_STREAMING = True
     Target.mode = S.choice("what_the_method_raises", MODES)
+    # the classes the daemon's own gates raise (AttributeError for refusals, KeyError/LookupError for lookups) included:
+    # a method's or getter's own exception of such a class must arrive as raised, not be taken for a refusal
+    Target.exc_class = S.choice("exception_class", EXC_CLASSES) if Target.mode == "serialisable" else ValueError
     kind = S.choice("call_kind", KINDS)
     sername = S.choice("serializer", ["serpent", "json", "marshal", "msgpack"])
     config.SERIALIZER = sername
@@ -103,7 +108,7 @@ def h_error_path(S, B):
     if raised is None:
         return
     if Target.mode == "serialisable":
-        S.check("same-class-as-raised-remotely", type(raised) is ValueError)
+        S.check("same-class-as-raised-remotely", type(raised) is Target.exc_class)
         S.check("same-args", raised.args == ("bad", 7))
         S.check("same-attributes", getattr(raised, "extra", None) == "x")
         S.check("carries-remote-traceback", getattr(raised, "_pyroTraceback", None) is not None)
@@ -130,6 +135,7 @@ def _reset():
     from pysym.runner import default_reset
     default_reset()
     Target.mode = "serialisable"
+    Target.exc_class = ValueError
 
 
 INTERPRET_MODULES = ["harness.rig"]
